@@ -14,8 +14,14 @@ python3 - $O <<'PY'
 import sys,subprocess,json
 o=sys.argv[1]
 lines=[l for l in open(o+'/cases.txt').read().split('\n') if l]
-inp='\n'.join('\t'.join(l.split('\t')[:2]) for l in lines)+'\n'
-out=subprocess.run(['/verif/driver/driver'],input=inp,capture_output=True,text=True).stdout.split('\n')
+from concurrent.futures import ThreadPoolExecutor
+N=12; per=max(1,(len(lines)+N-1)//N)
+chunks=[lines[i:i+per] for i in range(0,len(lines),per)]
+def run(ch):
+    inp='\n'.join('\t'.join(l.split('\t')[:2]) for l in ch)+'\n'
+    o=subprocess.run(['/verif/driver/driver'],input=inp,capture_output=True,text=True).stdout.split('\n')
+    return o[:len(ch)]+['']*(len(ch)-len(o))
+with ThreadPoolExecutor(N) as ex: out=[m for o in ex.map(run,chunks) for m in o]
 mm=0
 for l,m in zip(lines,out):
     cid,req,impl=l.split('\t'); mod=m.split('\t')[1] if '\t' in m else '<missing>'
